@@ -44,6 +44,7 @@ type dlClient struct {
 	tipTag   *big.Int
 	finTag   *big.Int
 	exhausted bool
+	sameTag   bool // tip and finalized queries use the same tag: every such query answers the (fixed) tip
 }
 
 var dlWatched = common.HexToHash("0xaaaa000000000000000000000000000000000000000000000000000000000001")
@@ -74,6 +75,9 @@ func (c *dlClient) HeaderByNumber(ctx context.Context, number *big.Int) (*types.
 			}
 		}
 		return c.header(number.Uint64()), nil
+	}
+	if c.sameTag {
+		return c.header(c.tip0), nil
 	}
 	if number != nil && number.Cmp(c.finTag) == 0 && c.finTag.Cmp(c.tipTag) != 0 {
 		k := c.finCalls
@@ -310,7 +314,52 @@ const dlF6 = "run 1 10 1 20 3:31;15:151 20,20,1;20,20,1 - - 0:m;1:m;2:m;3:m;4:m;
 // finalized pointer after the wake-up fails, and the chain stays quiet: blocks 6-7 must still be fetched and handed over
 const dlStall = "run 1 10 1 5 3:31;7:71 5,5,1;7,7,0;7,7,1 - - -"
 
+// directed configuration check: a syncer that follows the SAFE block while the node's finality setting is FINALIZED. The
+// constructor then has to fall back to the safe block for "finalized" as well — and must stop calling it finalized: a block
+// at or below the safe head can still be replaced, so it has to be handed over as non-final (and hence tracked by the driver)
+func dlSafeConfig(r *Run) {
+	cl := &dlClient{tip0: 20, chain: map[uint64][]uint64{3: {31}, 15: {151}}, noise: map[uint64]int{}, filterErrs: map[int]byte{}, hdrFaults: map[int]byte{},
+		inputs: []dlInput{{20, 20, true}, {20, 20, true}}}
+	cl.tipTag, _ = aggkittypes.SafeBlock.ToBlockNum()
+	cl.finTag, _ = aggkittypes.SafeBlock.ToBlockNum()
+	cl.sameTag = true
+	appender := sync.LogAppenderMap{dlWatched: func(b *sync.EVMBlock, l types.Log) error {
+		b.Events = append(b.Events, binary.BigEndian.Uint64(l.Data))
+		return nil
+	}}
+	d, err := sync.NewEVMDownloader("verif", cl, 10, aggkittypes.SafeBlock, time.Millisecond, appender, []common.Address{dlAddr},
+		&sync.RetryHandler{RetryAfterErrorPeriod: time.Millisecond, MaxRetryAttemptsAfterError: -1}, aggkittypes.FinalizedBlock)
+	must(err)
+	sync.VerifSetStopDownloaderOnIterationN(d, 2)
+	ch := make(chan sync.EVMBlock, 100)
+	done := make(chan struct{})
+	ctx, cancel := context.WithCancel(context.Background())
+	defer cancel()
+	go func() { d.Download(ctx, 1, ch); close(done) }()
+	select {
+	case <-done:
+	case <-time.After(20 * time.Second):
+		r.Notes = append(r.Notes, "downloader safe-config run timed out")
+		return
+	}
+	r.Evals++
+	n := 0
+	for len(ch) > 0 {
+		b := <-ch
+		n++
+		if b.IsFinalizedBlock {
+			r.Fail(fmt.Sprintf("[C06,C05] a syncer configured to follow the safe block (node finality: finalized) hands over block %d as FINALIZED although only the safe head is known: the driver will never track it, a reorg of it goes unseen", b.Num), []string{"safe-config"})
+			return
+		}
+	}
+	if n == 0 {
+		r.Notes = append(r.Notes, "downloader safe-config run delivered nothing")
+	}
+	r.Count("directed:safe-block-syncer-with-finalized-node-setting")
+}
+
 func dlGen(r *Run, rng *Rng) {
+	dlSafeConfig(r)
 	n := 250
 	if r.Tier == "thorough" {
 		n = 3000
